@@ -195,7 +195,12 @@ fn run(prog: &Program, opt: &HashMap<String, Vec<String>>) {
 				it.events.push(Event { kind: "unknown".into(), label: m, result: "unknown".into(), model: vec![], path: paths, ms: 0.0 });
 			}
 			Err(Ctl::Stop(m)) => {
-				status = "stopped".into();
+				if m == "counterexample cap" {
+					paths += 1;
+					status = "done".into();
+				} else {
+					status = "stopped".into();
+				}
 				detail = m;
 				stop = true;
 			}
